@@ -352,6 +352,7 @@ def patches_set_restores(F, ob, cfg):
     cy = F.choice("cy", list(range(lo[0], hi[0] + 1)))
     cx = F.choice("cx", list(range(lo[1], hi[1] + 1)))
     pc = PointCloud(np.array([[cy, cx]], dtype=float))
+    px_snap = K.snapshot(px)
     patches = img.extract_patches(pc, patch_shape=ps, as_single_array=True)
     # overwrite the region, then restore it from the patches
     scr = img.copy()
@@ -359,7 +360,7 @@ def patches_set_restores(F, ob, cfg):
     restored_other = scr.set_patches(patches, pc)
     back = img.set_patches(patches, pc)
     ob.same("restored", back.pixels, px)
-    ob.true("set_patches.returns_copy", back is not img and back.pixels is not img.pixels)
+    K.same_terms(F, ob, "extract_and_set.source_image_untouched", px_snap, img.pixels)
     # the written block is exactly the patch block
     r0, k0 = cy - ps[0] // 2, cx - ps[1] // 2
     ob.same("block", restored_other.pixels[:, r0:r0 + ps[0], k0:k0 + ps[1]], px[:, r0:r0 + ps[0], k0:k0 + ps[1]])
